@@ -501,9 +501,18 @@ pub fn gen_scn(d: &Data, r: &mut Rng, faulty: bool) -> Scn {
     let has_alias = !m.into.is_empty() || !m.from.is_empty();
     let stems = ["r", "rules", "lang-a", "my rules"];
     // the tool also accepts .txt for word, rule and alias files
-    let rs = format!("{}.{}", r.pick(&stems), if r.chance(1, 10) { "txt" } else { "rsca" });
+    let mut rs = format!("{}.{}", r.pick(&stems), if r.chance(1, 10) { "txt" } else { "rsca" });
     let ws = format!("{}.{}", r.pick(&["w", "lex", "words-1"]), if r.chance(1, 10) { "txt" } else { "wsca" });
     let al = "a.alias".to_string();
+    if r.chance(1, 8) {
+        // the rule file lives in a directory of its own, next to files that bear the names of
+        // the word and alias files of the current directory (a path means what it means in the shell)
+        rs = format!("lib/{rs}");
+        files.insert(format!("lib/{ws}"), "mula\nnuna\n".to_string());
+        meaning.insert(format!("lib/{ws}"), Meaning::Other);
+        files.insert(format!("lib/{al}"), "@into\n    zz > a\n@from\n    a > zz\n".to_string());
+        meaning.insert(format!("lib/{al}"), Meaning::Other);
+    }
     files.insert(rs.clone(), render_rsca(&m.rules, &fmt, r));
     meaning.insert(rs.clone(), Meaning::Rules(m.rules.clone()));
     files.insert(ws.clone(), render_wsca(&m.words, &fmt, r));
